@@ -247,9 +247,9 @@ func (a *Agent) UpdatePeers(ctx context.Context, p pool.Pool) error {
 			lookup[uri.ID()] = uri.RemoteHost()
 		}
 
-		// Mark any non-active peers as invalid. These should be a superset of
-		// the original update.InvalidPeers, so we truncate it first.
-		update.InvalidPeers = update.InvalidPeers[:0]
+		// Mark any non-active peers as invalid, in addition to the peers the
+		// pool declared invalid (which need not be among our current peers,
+		// but must still lose their trusted status).
 		for _, p := range peers {
 			uri, err := ethnode.ParseNodeURI(p.EnodeURI())
 			if err != nil {
